@@ -26,7 +26,7 @@ from vlib.runner import Part, Result
 PROPERTY = "C05"
 LEVEL = "exploration"
 RULE = (
-    "cases = (H, W, stride in {1,2,4,8}, sigma in [0.5,20], flatten_channels, random rooted tree on 2..6 nodes "
+    "cases = (H, W up to 96 px with stride in {1,2,4,8} or 512..4096 px with stride in {32,64}, sigma in [0.5,20], flatten_channels, random rooted tree on 2..6 nodes "
     "plus extra/duplicate/reversed edges in random order, 0..4 animals each built from a drawn class: inside / "
     "partly outside / wholly outside on one side (mostly within reach of the border) / all-NaN / border strip; "
     "nodes placed relative to their tree parent by a drawn class: free (sub-pixel or on a grid cell, sometimes "
@@ -63,6 +63,9 @@ TOL_ON = 1e-4
 # TOL_MONO cannot come from rounding.
 EPS_D = 1e-3
 TOL_MONO = 1e-5
+# frames larger than 256 px: cell-to-keypoint offsets reach ~6000 px, where one float32 ulp is 5e-4 px; the
+# distance computed by sum((t*d - r)^2) then carries up to a few 1e-3 px of rounding -> 0.02 px separation
+EPS_D_LARGE = 2e-2
 
 
 def f32(v):
@@ -236,7 +239,7 @@ def check_call(res, prefix, call, P_all, edges, case):
                             f"cell ({idx[0]},{idx[1]}) coincides with the source keypoint of a {L:.3g} px edge but |F.u|={w[tuple(idx)]:.6g} (unit vector expected); {where}",
                         )
             # monotone in the reference distance
-            eps = EPS_D + (L if ek == "subpixel" else 0.0)
+            eps = (EPS_D if max(H, W) <= 256 else EPS_D_LARGE) + (L if ek == "subpixel" else 0.0)
             order = np.argsort(dist, axis=None, kind="stable")
             ds = dist.ravel()[order]
             ws = w.ravel()[order]
@@ -281,7 +284,7 @@ def evaluate(case):
     P_all = np.array([a["pts"] for a in animals], dtype=np.float64).reshape(len(animals), n_nodes, 2).astype(np.float32)
 
     # ---- classes / non-triviality (derived from the coordinates, not from the drawn labels)
-    res.cls(f"stride={stride}", f"flatten={flatten}", f"n_inst={len(animals)}")
+    res.cls(f"stride={stride}", f"flatten={flatten}", f"n_inst={len(animals)}", "frame=large(>256px)" if max(H, W) > 256 else "frame=small")
     if H % stride or W % stride:
         res.cls("size=non-multiple")
     contributing = zero_pairs = 0
@@ -347,9 +350,15 @@ def strategy():
 
     @st.composite
     def case(draw):
-        stride = draw(st.sampled_from(STRIDES))
+        # "large": frames of 512..4096 px sampled at a coarse stride (the grid stays small): coordinates and
+        # cell-to-keypoint offsets of thousands of pixels, where float32 arithmetic has ~1e-4 px resolution and
+        # any formula that subtracts large squared terms loses the distance altogether
+        large = draw(st.integers(0, 5)) == 0
+        stride = draw(st.sampled_from([32, 64])) if large else draw(st.sampled_from(STRIDES))
 
         def size():
+            if large:
+                return stride * draw(st.integers(512 // stride, 4096 // stride)) + (draw(st.integers(1, stride - 1)) if draw(st.integers(0, 5)) == 0 else 0)
             if draw(st.integers(0, 99)) < 15:
                 return draw(st.integers(16, 96))
             return stride * draw(st.integers(16 // stride, 96 // stride))
